@@ -76,7 +76,7 @@ func load() (*Loaded, error) {
 	if err := spec.Finish(boot); err != nil {
 		return nil, err
 	}
-	v := &Verifier{enc: enc, spec: spec, contracts: cs, fnByKey: map[string]*ssa.Function{}, maxPaths: 4000, fuel: 2, bound: map[*ssa.Function]*BoundContract{}}
+	v := &Verifier{enc: enc, spec: spec, contracts: cs, fnByKey: map[string]*ssa.Function{}, maxPaths: 4000, fuel: 1, bound: map[*ssa.Function]*BoundContract{}}
 	v.eff = NewEffectsDB(enc)
 	v.globals = LoadGlobalTables(pkgs[0])
 	for _, f := range v.eff.all {
